@@ -141,6 +141,7 @@ class FnTir:
         self.env = {}          # local name -> string-TIR of its initialiser, evaluated at the let (scoping/shadowing respected)
         self.env_expr = {}     # local name -> initialiser expression (latest binding; for guards that mention a local)
         self.env_closures = {}  # local name -> closure expression bound by `let f = |..| {..}`
+        self.env_bool = {}      # local name -> True / False: known boolean literal (per arm of a tuple let)
         self.env_opt = {}       # local name -> ("none", None) | ("some", payload expr): known Option constructor (per arm of a tuple let)
         self.params = []
         self.unknown = []      # constructs outside the supported fragment (reported by rules that depend on them)
@@ -248,11 +249,15 @@ class FnTir:
                     pre = self.W_nonsink_args(H.peel_ref(s["init"]).get("scrut") or H.peel_ref(s["init"]).get("cond"))
                     alts = []
                     for g, binds in arms:
-                        saved = (dict(self.env), dict(self.env_expr), dict(self.env_opt))
+                        saved = (dict(self.env), dict(self.env_expr), dict(self.env_opt), dict(self.env_bool))
                         for nm, x in binds:
                             self.env[nm] = self.S(x)
                             self.env_expr[nm] = x
                             px = H.peel_ref(x)
+                            if px.get("k") == "lit" and px["lit"]["t"] == "bool":
+                                self.env_bool[nm] = bool(px["lit"]["v"])
+                            else:
+                                self.env_bool.pop(nm, None)
                             if px.get("k") == "path" and px.get("def") == "core::option::Option::None":
                                 self.env_opt[nm] = ("none", None)
                             elif px.get("k") == "call" and px.get("callee") == "core::option::Option::Some" and len(px.get("args") or []) == 1:
@@ -260,7 +265,7 @@ class FnTir:
                             else:
                                 self.env_opt.pop(nm, None)
                         alts.append((g, self.W(rest)))
-                        self.env, self.env_expr, self.env_opt = saved
+                        self.env, self.env_expr, self.env_opt, self.env_bool = saved
                     self._split -= 1
                     items.append(pre)
                     items.append(("alt", alts))
@@ -349,6 +354,26 @@ class FnTir:
                             return r
                         return self.W(e["then"])
                     return self.W(e["else"]) if e.get("else") is not None else ("seq", [])
+            # `if flag {..}` where `flag` is known (per arm of a tuple let) to be a boolean literal
+            cneg, cb = False, H.peel_ref(c0) if isinstance(c0, dict) else None
+            while isinstance(cb, dict) and cb.get("k") == "unary" and cb.get("op") == "not":
+                cneg, cb = not cneg, H.peel_ref(cb["e"])
+            if isinstance(cb, dict) and cb.get("k") == "local" and cb.get("name") in self.env_bool:
+                val = self.env_bool[cb["name"]] != cneg
+                return self.W(e["then"]) if val else (self.W(e["else"]) if e.get("else") is not None else ("seq", []))
+            # `if let Some((kw, v)) = anchor` where `anchor = opt.map(|x| match x { A(v) => (" BEFORE ", v), .. })`: the names are
+            # the components of what the closure yields
+            if isinstance(c0, dict) and c0.get("k") == "let" and isinstance(c0.get("init"), dict):
+                iv = H.peel_ref(c0["init"])
+                pt = c0.get("pat") or {}
+                src = self.env_expr.get(iv.get("name")) if iv.get("k") == "local" else None
+                src = H.peel_ref(src) if isinstance(src, dict) else None
+                if src is not None and src.get("k") == "mcall" and src.get("name") == "map" and len(src.get("args") or []) == 1 and \
+                        src["args"][0].get("k") == "closure" and (pt.get("path") or {}).get("def") == "core::option::Option::Some" and \
+                        len(pt.get("subs") or []) == 1 and pt["subs"][0].get("k") == "tuple":
+                    for i_, sb in enumerate(pt["subs"][0]["subs"]):
+                        if sb.get("k") == "bind":
+                            self.env[sb["name"]] = self.component(src["args"][0]["body"], i_)
             pre = self.W(e["cond"])
             th = self.W(e["then"])
             el = self.W(e["else"]) if e.get("else") is not None else ("seq", [])
@@ -390,6 +415,21 @@ class FnTir:
             if not any(has_effects(a) for _, a in arms):
                 return pre
             return ("seq", [pre, ("alt", arms)])
+        if k == "loop" and "While" in e.get("src", ""):
+            # `while let Some(x) = it.next() { BODY }` over an iterator local is a `for x in it` loop
+            b0 = e.get("body") or {}
+            inner = b0.get("expr") if b0.get("k") == "block" and not b0.get("stmts") else None
+            if isinstance(inner, dict) and inner.get("k") == "if" and isinstance(inner.get("cond"), dict) and inner["cond"].get("k") == "let":
+                c_ = inner["cond"]
+                iv = H.peel_ref(c_.get("init") or {})
+                pt = c_.get("pat") or {}
+                els = inner.get("else") or {}
+                only_break = els.get("k") == "block" and len(els.get("stmts") or []) == 1 and els["stmts"][0].get("k") == "break" and els.get("expr") is None
+                if iv.get("k") == "mcall" and iv.get("name") == "next" and not iv.get("args") and H.peel_ref(iv["recv"]).get("k") == "local" and \
+                        (pt.get("path") or {}).get("def") == "core::option::Option::Some" and only_break:
+                    itl = H.peel_ref(iv["recv"])
+                    return ("loop", self.W(inner["then"]), {"kind": "for", "over": itl["name"], "e": itl, "pat": pt, "body": inner["then"], "sp": e.get("sp"),
+                                                           "while_let": True})
         if k == "loop":
             return ("loop", self.W(e["body"]), {"kind": "while" if "While" in e.get("src", "") else "loop", "over": "", "sp": e.get("sp")})
         if k == "ret":
